@@ -163,8 +163,47 @@ def c19(tier, seed):
                          min_distinct=1000, extra_cov={"exhaustive_subspaces": ex}, t_start=t0)
 
 
+def c13(tier, seed):
+    steps = [
+        Step("fam_coro", "fib-asan", 120000, 3000000),
+        Step("fam_coro", "fib-asan-nost", 60000, 1500000),
+        Step("fam_wg", "fib-asan", 20000, 300000, cells="waitgroup/mixed"),
+        Step("fam_cmutex", "fib-asan", 20000, 300000, cells="mutex/"),
+        Step("fam_coro", "thr-tsan", 3000, 80000),
+        Step("fam_coro", "thr-asan", 0, 60000),
+    ]
+    return run_steps("C13", tier, seed, steps,
+                     "every case (each coroutine performs 1-3 awaits over sources that are ready, racing or late); "
+                     "distinct = distinct interleaving signatures")
+
+
+def c14(tier, seed):
+    steps = [
+        Step("fam_cmutex", "fib-asan", 100000, 3000000, cells="mutex/"),
+        Step("fam_cmutex", "fib-asan-nost", 50000, 1500000, cells="mutex/"),
+        Step("fam_cmutex", "thr-tsan", 3000, 80000, cells="mutex/"),
+        Step("fam_cmutex", "thr-asan", 0, 60000, cells="mutex/"),
+    ]
+    return run_steps("C14", tier, seed, steps,
+                     "every case (2-5 coroutines contend for one Mutex on 1-3 workers with a yield inside each section)")
+
+
+def c15(tier, seed):
+    steps = [
+        Step("fam_cmutex", "fib-asan", 100000, 3000000, cells="shared-mutex/"),
+        Step("fam_cmutex", "fib-asan-nost", 50000, 1500000, cells="shared-mutex/"),
+        Step("fam_cmutex", "thr-tsan", 3000, 80000, cells="shared-mutex/"),
+        Step("fam_cmutex", "thr-asan", 0, 60000, cells="shared-mutex/"),
+    ]
+    return run_steps("C15", tier, seed, steps,
+                     "every case (2-6 reader/writer coroutines contend for one SharedMutex on 1-3 workers)")
+
+
 PLANS = {
     "C01": c01,
+    "C13": c13,
+    "C14": c14,
+    "C15": c15,
     "C19": c19,
     "C06": c06,
     "C11": c11,
